@@ -730,4 +730,17 @@ theorem C30_raw_sql (toks : List Tok) (k : Nat) :
     | nil => rfl
     | cons t r ih => cases t <;> simp [rawItem, rawAst, ih]
 
+/-- the k-th OCCURRENCE of a `$`-expression in a fragment is parameter number k — also when expression texts repeat —
+    so it is bound to the value `RawSQL.__init__` evaluated for that occurrence; numbering by distinct text instead would
+    bind the `y` of `$x … $x … $y` to the second value (an `x`) -/
+theorem C30_raw_sql_by_occurrence (e1 e2 : List Char) (h : e1 ≠ e2) :
+    rawAst 0 [.param e1, .str [' '], .param e1, .str [' '], .param e2] =
+      [.param 0, .str [' '], .param 1, .str [' '], .param 2] ∧
+    rawAstByText [] [.param e1, .str [' '], .param e1, .str [' '], .param e2] =
+      [.param 0, .str [' '], .param 0, .str [' '], .param 1] := by
+  constructor
+  · rfl
+  · have h' : (e1 == e2) = false := by simpa using h
+    simp [rawAstByText, h', List.idxOf, List.findIdx, List.findIdx.go]
+
 end PonyVerif.Props.C30
